@@ -69,6 +69,8 @@ pub struct RunStats {
     pub ops: u64,
     pub solo_steps: u64,
     pub conc_steps: u64,
+    pub solo_edges: u64,
+    pub conc_edges: u64,
     pub probes: Probes,
     pub sched: SchedStats,
     pub twin_same_compared: u64,
@@ -699,6 +701,7 @@ struct ThreadOutput {
     stats: RunStats,
     probes: Probes,
     steps: u64,
+    edges: u64,
 }
 
 /// Runs one thread's op list. `root` is the (shared or pristine) root context.
@@ -716,7 +719,8 @@ fn run_thread<'a, 'w>(
     let plan = &w.threads[tid];
     tls::activate(tid, sched.clone(), enabled_sites, w.knobs.buggify_milli);
     if let Some(s) = &sched {
-        s.wait_start(tid);
+        let gap = s.wait_start(tid);
+        tls::set_edge_gap(gap);
     }
     let private: Option<BuiltRoot> = plan
         .private_recipe
@@ -764,6 +768,7 @@ fn run_thread<'a, 'w>(
             stats,
             probes: Probes::default(),
             steps: 0,
+            edges: 0,
         },
         Err(p) => {
             sh.report(ViolationInfo {
@@ -783,14 +788,16 @@ fn run_thread<'a, 'w>(
                 stats: RunStats::default(),
                 probes: Probes::default(),
                 steps: 0,
+                edges: 0,
             }
         }
     };
     if let Some(s) = &sched {
         s.finish(tid);
     }
+    let edges = tls::edges_seen();
     let (probes, steps) = tls::deactivate();
-    ThreadOutput { probes, steps, ..out }
+    ThreadOutput { probes, steps, edges, ..out }
 }
 
 pub struct RunOptions {
@@ -906,13 +913,14 @@ pub fn run_workload(w: &Workload, opts: &RunOptions) -> RunResult {
             merge(&mut stats, &out.stats);
             stats.probes.add(&out.probes);
             stats.solo_steps += out.steps;
+            stats.solo_edges += out.edges;
             final_root_check(&sh, &tr, "solo-reference");
             reference.push(out.records);
         }
         if !sh.stopped() {
             // Phase C: all threads against one shared root
             let shared_root = build_root(&w.recipe);
-            let max_decisions = 4 * stats.solo_steps + 1000 + 4 * n as u64;
+            let max_decisions = 4 * (stats.solo_steps + stats.solo_edges) + 1000 + 4 * n as u64;
             let sched = if opts.free_run {
                 None
             } else {
@@ -920,9 +928,14 @@ pub fn run_workload(w: &Workload, opts: &RunOptions) -> RunResult {
                     Some(t) => Source::Explicit {
                         trace: t.clone(),
                         enabled_sites: w.sched.enabled_sites,
+                        fine_gap: if tls::fine_build() { w.sched.fine_gap } else { 0 },
+                        seed: w.sched.seed,
                     },
                     None => {
                         let mut spec = w.sched.clone();
+                        if !tls::fine_build() {
+                            spec.fine_gap = 0;
+                        }
                         if let Policy::Pct { depth, horizon: 0 } = spec.policy {
                             // horizon not fixed by the workload: the solo step count (deterministic)
                             spec.policy = Policy::Pct {
@@ -962,6 +975,7 @@ pub fn run_workload(w: &Workload, opts: &RunOptions) -> RunResult {
                 merge(&mut stats, &o.stats);
                 stats.probes.add(&o.probes);
                 stats.conc_steps += o.steps;
+                stats.conc_edges += o.edges;
                 stats.outcome_digests.extend(o.stats.outcome_digests.iter().copied());
             }
             if let Some(sc) = &sched {
